@@ -65,6 +65,10 @@ def main():
         unordered = set()
         for batch in range(3):
             df = pd.DataFrame({c: rng.integers(0, 3, nrows).astype(str) for c in cols})
+            if batch == 1 and len(cols) > 1:
+                # a column that happens to be constant in this batch is still a column
+                const = [c for c in cols if c != 'label'][0]
+                df[const] = 'same'
             summary = CR.mixed_rank_graph(df, args, InlinePool(), Pbar())
             rows = summary.triplet_scores
             h.record(('graph', case, batch), True)
@@ -91,6 +95,18 @@ def main():
                 h.fail('mixed_rank_graph.reduced_only_by_cap', bwit, sorted(map(sorted, exp - unordered_b)))
         if not unordered <= exp:
             h.fail('mixed_rank_graph.evaluated_subset_of_requested', wit, sorted(map(sorted, unordered - exp)))
+        # the same args object used for a WIDER frame afterwards: the cap is the user's, not the previous batch's pair count
+        if heuristic != 'Constant' and not mr3 and cap >= len(combos):
+            wide = cols + ['w1', 'w2']
+            dfw = pd.DataFrame({c: rng.integers(0, 3, nrows).astype(str) for c in wide})
+            CR.GLOBAL_PRIOR_COMB_COUNTS.clear()
+            rows_w = CR.mixed_rank_graph(dfw, args, InlinePool(), Pbar()).triplet_scores
+            got_w = {frozenset((a, b)) for a, b, _ in rows_w}
+            exp_w = expected_pairs(wide, 'label', pairwise, mr3)
+            h.record(('wider', case), True)
+            if cap >= len(exp_w) + len(wide) and got_w != exp_w:
+                h.fail('mixed_rank_graph.reduced_only_by_cap', dict(wit, columns=wide, note='same args object as for the narrower batches before'),
+                       f'{len(got_w)} pairs for a wider frame, {len(exp_w)} requested under cap {cap}')
         # same process, same columns, a different label column: the requested pairs follow the label of THIS call
         others = [c for c in cols if c != 'label' and ' AND_REL ' not in c]
         if others and heuristic != 'Constant':
